@@ -334,9 +334,13 @@ def c11_cases(h, rng, n):
     for i in range(n):
         cfg = {"unsol": 0, "soltx": rng.choice([249, 249, 300, 512]), "confirm_ms": 1000, "sel": 0, "op": 0, "decode": rng.below(4)}
         ops = []
-        npts = rng.choice([10, 60, 130, 200])
+        # long: a series of more than 16 fragments, the 4-bit sequence number wraps inside it
+        long_series = rng.chance(1, 12)
+        npts = 900 if long_series else rng.choice([10, 60, 130, 200])
+        if long_series:
+            cfg["soltx"] = 249
         for k in range(npts):
-            ops.append(("add", rng.choice(["analog", "binary", "counter"]), k * rng.choice([1, 1, 3]), rng.below(4)))
+            ops.append(("add", "analog" if long_series else rng.choice(["analog", "binary", "counter"]), k * rng.choice([1, 1, 3]), rng.below(4)))
         if rng.chance(1, 2):
             ops.append(("update", "analog", 0, "7", 1, 10))
         seq = rng.below(16)
@@ -344,8 +348,8 @@ def c11_cases(h, rng, n):
         req = frag(seq, FN["read"], read_classes(rng.choice([(0,), (1, 2, 3, 0), (0, 1)])))
         ops.append(("rx", MASTER, "none", hexs(req)))
         s = seq
-        for k in range(rng.range(0, 6)):
-            a = rng.below(10)
+        for k in range(rng.range(17, 24) if long_series else rng.range(0, 6)):
+            a = rng.below(10) if not long_series or k > 16 or rng.chance(1, 12) else 0
             if slow:
                 ops.append(("sleep", 600))
             if a < 5 or slow:
